@@ -208,6 +208,41 @@ f = fn() {
 }
 x = f()
 """),
+    # ---- a str has no element to replace, whichever scope it lives in (captured by a function / a method)
+    ("captured-str-element-assignment-in-closure", "reject", """
+title = "abc"
+f = fn() {
+	title[0] = "C"
+}
+f()
+OBS title
+"""),
+    ("captured-str-element-assignment-in-method", "reject", """
+title = "abc"
+class K {
+	constructor(self) {}
+	fn set(self) {
+		title[0] = "C"
+	}
+}
+k = K()
+k.set()
+OBS title
+"""),
+    ("captured-str-element-assignment-depth-2", "reject", """
+mk = fn() -> fn() {
+	word = "abc"
+	g = fn() {
+		h = fn() {
+			word[1] = "x"
+		}
+		h()
+	}
+	return g
+}
+r = mk()
+r()
+"""),
     # ---- optionals across positions: a `T?` may be nil, so it is not a value for a slot typed `T` (element, field, map
     #      value, result): the program is ill-typed and must be refused, like `x: int = o` (fixed in /repo 85544e6)
     ("optional-into-element-by-reassignment", "reject", """
